@@ -2,6 +2,6 @@ From Coq Require Import Extraction ExtrOcamlBasic ExtrOcamlString.
 From GW Require Import Base Upload Concurrent ConcServe.
 Extraction Language OCaml.
 Extraction "model_c18.ml"
-  Upload.outcome Upload.model_agrees Upload.spec_ok Upload.script_wf Upload.xspec_ok
+  Upload.outcome Upload.model_agrees Upload.spec_ok Upload.script_wf Upload.xspec_ok Upload.xmodel_agrees
   Concurrent.expected Concurrent.conc_agrees Concurrent.conc_spec_ok Concurrent.conc_wf Concurrent.dav_spec_ok
   ConcServe.serve_agrees ConcServe.workload_ok ConcServe.run_ops.
